@@ -213,6 +213,15 @@ def gen_case(rng, tier):
             ops.append(["ra"]); sim.backlog = sim.inprog + sim.backlog; sim.inprog = []; recv_open = False
         elif kind != "chan":
             ops.append(["waitq", sim.chan_len()]); ops.append(["len"]); sim.length()
+            if rng.random() < 0.6:
+                # the same section reads the length, consumes what is there, and reads the length again
+                # (the length resource is committed / aborted with the section, not after each read)
+                for _ in range(rng.randint(1, 3)):
+                    sim.settle()
+                    if not sim.backlog and not sim.queue:
+                        break
+                    ops.append(["r"]); recv_open = True; sim.read(); sync()
+                ops.append(["waitq", sim.chan_len()]); ops.append(["len"]); sim.length()
         sim.settle()
 
     for _ in range(nsteps):
@@ -288,13 +297,37 @@ def gen_relaxed_burst(rng, tier):
             ops.append(["rc"]); nread += insec
         else:
             ops.append(["ra"])          # the reads of this section will be redelivered
-    for _ in range(total - nread):
-        ops.append(["r"])
-    ops.append(["rc"])
-    # nothing more may come
-    ops += [["r"], ["ra"], ["rc"]]
+    # drain in sections of one read each (a read that times out under load then rolls back nothing), with some slack;
+    # the last reads must time out: nothing more may come
+    for _ in range(total - nread + 5):
+        ops += [["r"], ["rc"]]
     return {"kind": "relaxed", "nsend": nsend, "cap": cap, "read_ms": READ_MS, "write_ms": 1000, "dial_ms": DIAL_MS, "custom": False,
             "senders": ["relaxed"] * nsend, "ops": ops, "racy": nsend >= 2, "burst": True}
+
+
+def gen_ostress(rng, tier, raw=True):
+    """OutputChan -> Go channel of capacity 1-3 -> concurrent consumer (plain Go code polling the channel, as a client of an
+    OutputChan does, or an InputChan): sections of 3-8 values, the channel fills and drains in the middle of commits"""
+    return {"kind": "chan", "nsend": 1, "cap": rng.choice([1, 2, 3]), "read_ms": READ_MS, "write_ms": WRITE_MS, "dial_ms": DIAL_MS,
+            "custom": False, "senders": ["out"], "ops": [],
+            "ostress": {"sections": 600 if tier == "quick" else 3000, "seed": rng.randrange(1 << 30), "raw": raw}}
+
+
+def oracle_ostress(case, out):
+    if out.get("err"):
+        return [("blocked-forever:outputchan-concurrent" if out["err"] == "hang" else "crash:outputchan-concurrent", out["err"][:200])]
+    sent, got = out.get("sent") or [], out.get("got") or []
+    if sent == got:
+        return []
+    k = next((i for i in range(min(len(sent), len(got))) if sent[i] != got[i]), min(len(sent), len(got)))
+    if len(set(got)) < len(got):
+        sig = "duplicated:outputchan-concurrent"
+    elif any(m not in got for m in sent):
+        sig = "lost:outputchan-concurrent"
+    else:
+        sig = "reordered:outputchan-concurrent"
+    return [(sig, "consumer obtained %s ... where the committed sections sent %s ... (first difference at position %d of %d; channel capacity %d)"
+             % (got[max(0, k - 3):k + 6], sent[max(0, k - 3):k + 6], k, len(sent), case["cap"]))]
 
 
 def expand(case, out):
@@ -395,7 +428,8 @@ def oracle(case, ops, out):
                         redeliver = []
                 inprog.append(m)
             elif st == "abort":
-                pass
+                # the read timed out: the section is aborted (the harness calls Abort as MPCalContext would)
+                redeliver = inprog + redeliver; inprog = []
         elif name == "rc":
             got += inprog; inprog = []
             for s in range(n):
@@ -595,6 +629,8 @@ def run(ctx):
             cases.append(gen_backpressure(rng, False))
         for k in range(8 if ctx.tier == "quick" else 60):
             cases.append(gen_relaxed_burst(rng, ctx.tier))
+        for k in range(6 if ctx.tier == "quick" else 40):
+            cases.append(gen_ostress(rng, ctx.tier, raw=(k % 3 != 2)))
     for k, c in enumerate(cases):
         c["id"] = k
     plain = cases
@@ -626,7 +662,7 @@ def run(ctx):
             continue
         rs = o.get("res") or []
         dist[c["kind"]] += 1
-        dist["oracle_only_racy"] = dist.get("oracle_only_racy", 0) + (1 if c.get("racy") or c["ops"][0][0] == "fill" else 0)
+        dist["oracle_only_racy"] = dist.get("oracle_only_racy", 0) + (1 if c.get("racy") or (c["ops"] and c["ops"][0][0] == "fill") else 0)
         dist["custom_in_chan"] += 1 if c.get("custom") else 0
         dist["relaxed_backpressure_no_timeout"] = dist.get("relaxed_backpressure_no_timeout", 0) + (1 if c.get("burst") else 0)
         dist["steps"] += len(ops)
@@ -637,6 +673,14 @@ def run(ctx):
         dist["read_timeouts"] += sum(1 for op, r in zip(ops, rs) if op[0] == "r" and r["st"] == "abort")
         dist["len_calls"] += sum(1 for op in ops if op[0] == "len")
         dist["messages_received"] += sum(1 for op, r in zip(ops, rs) if op[0] == "r" and r["st"] == "ok")
+        if c.get("ostress"):
+            dist["outputchan_concurrent"] = dist.get("outputchan_concurrent", 0) + 1
+            dist["outputchan_concurrent_values"] = dist.get("outputchan_concurrent_values", 0) + len(o.get("sent") or [])
+            c["_skipped"] = True   # genuinely concurrent: oracle only
+            ctx.add_case(json.dumps(["ostress", c["cap"], c["ostress"]]), True)
+            for sig, what in oracle_ostress(c, o):
+                ctx.failures.append({"signature": sig, "what": what, "case": strip(c), "obs": {"got": (o.get("got") or [])[:400], "err": o.get("err")}})
+            continue
         ctx.add_case(json.dumps([c["kind"], c["nsend"], c["cap"], c.get("custom"), c["senders"], ops]), nontrivial(c, ops, o))
         if o.get("err"):
             ctx.breaks.append({"what": "harness reported an error on a case: " + o["err"][:200], "case": strip(c), "impl": o})
@@ -649,7 +693,7 @@ def run(ctx):
     ctx.extra["input_distribution"] = dist
     ctx.samples = [{"kind": c["kind"], "nsend": c["nsend"], "cap": c["cap"], "ops": c["_ops"][:18],
                     "impl": [(r["st"], r.get("v")) for r in (c["_out"].get("res") or [])[:18]]}
-                   for c in cases[:60] if not c.get("_skipped") and c["ops"][0][0] != "fill"][:4]
+                   for c in cases[:60] if not c.get("_skipped") and c["ops"] and c["ops"][0][0] != "fill"][:4]
     if dist["not_run"]:
         ctx.breaks.append({"what": "%d cases not run because earlier cases blocked forever" % dist["not_run"]})
     # tie B
@@ -657,7 +701,7 @@ def run(ctx):
         items_txt = []
         probs = {}
         for k, c in enumerate(part):
-            if c.get("_skipped") or c["ops"][0][0] == "fill" or c.get("racy"):
+            if c.get("_skipped") or not c["ops"] or c["ops"][0][0] == "fill" or c.get("racy"):
                 # fill cases: which of two racing handlers (each decoding a 256 KB value) reaches the queue first
                 # is not determined by the script; they are checked by the oracle only
                 items_txt.append("([], 1%nat, [])"); continue
